@@ -66,7 +66,11 @@ func PositionFamily(ctx *core.Ctx) {
 			{"elseif", []core.Cmd{core.CIf([]core.Cmd{core.CBr(core.EBool(false), []core.Cmd{F}), core.CBr(e, []core.Cmd{T})}, core.Opt(true, []core.Cmd{F}))}, true},
 			{"let", []core.Cmd{core.CLetV("z", e), core.CPrint(core.EFn("isNonnull", z())), core.CPrint(core.EBin("elvis", z(), core.EStr("?")))}, true},
 			{"param", []core.Cmd{core.CCall("t.c", "none", nil, core.CPV("z", e))}, true},
-			{"param-attr", []core.Cmd{func() core.Cmd { c := core.CCall("t.c", "none", nil, core.CPV("z", e)); c["paramattrs"] = true; return c }()}, true},
+			{"param-attr", []core.Cmd{func() core.Cmd {
+				c := core.CCall("t.c", "none", nil, core.CPV("z", e))
+				c["paramattrs"] = true
+				return c
+			}()}, true},
 			{"case", []core.Cmd{core.CSwitch(e, []core.Cmd{core.CCase([]core.E{core.EStr("zz"), e}, []core.Cmd{T})}, core.Opt(true, []core.Cmd{F}))}, true},
 			{"list-elem", []core.Cmd{core.CLetV("z", core.EList(core.EInt(0), e)), core.CPrint(core.EFn("length", z()))}, true},
 			{"map-value", []core.Cmd{core.CLetV("z", core.EMap("k", e)), core.CPrint(core.EFn("isNonnull", core.EVar("z", core.AKey("k", false))))}, true},
